@@ -16,7 +16,10 @@ use linux::ExecutableMemory;
 use self::windows::ExecutableMemory;
 
 pub const INITIAL_MEMORY_SIZE: usize = 0x800000;
-pub const MEMORY_MINIMUM_SIZE: usize = 0x1000;
+/// Space kept free for the next translation: the longest straight-line block
+/// is one 16KB bank of single-byte instructions, at under 128 bytes of host
+/// code each.
+pub const MEMORY_MINIMUM_SIZE: usize = 0x200000;
 pub const MEMORY_SIZE_INCREASE: usize = 0x1000;
 
 pub struct CodeCache {
@@ -26,6 +29,8 @@ pub struct CodeCache {
 
   prologue_location: usize,
   epilogue_location: usize,
+  /// First byte after the shared prologue / epilogue, where blocks begin
+  blocks_location: usize,
 }
 
 impl CodeCache {
@@ -37,9 +42,11 @@ impl CodeCache {
 
       prologue_location: 0,
       epilogue_location: 0,
+      blocks_location: 0,
     };
     cache.write_prelude_block();
     cache.write_epilogue_block();
+    cache.blocks_location = cache.write_cursor;
 
     cache
   }
@@ -103,6 +110,13 @@ impl CodeCache {
   }
 
   pub fn translate_code_block(&mut self, code: &Box<[u8]>, ip: usize, mem: *const MemoryAreas) -> usize {
+    // The executable area has a fixed size. When the next block might not fit,
+    // drop every translated block and start filling the area again; blocks are
+    // simply translated again when they are next needed.
+    if self.exec_memory.get_memory_area().len() - self.write_cursor < MEMORY_MINIMUM_SIZE {
+      self.code_blocks.clear();
+      self.write_cursor = self.blocks_location;
+    }
     let mut write_cursor = self.write_cursor;
     let starting_offset = write_cursor;
 
@@ -173,10 +187,6 @@ impl CodeCache {
     let bytes_translated = index - ip;
     self.insert_code_block(ip, starting_offset, write_cursor - starting_offset, bytes_translated);
 
-    let space_remaining = available_length - write_cursor;
-    if space_remaining < MEMORY_MINIMUM_SIZE {
-      println!("Running out of space, only {} bytes left", space_remaining);
-    }
 
     starting_offset
   }
